@@ -87,6 +87,10 @@ class C13(Check):
         n = 60 if tier == "quick" else 6000
         for i in range(n):
             yield {"kind": "e2e", "i": i, "seed": seed}
+        # one append of several thousand rows (the writer works in batches): NaN / NULL / extremes in ONE batch only
+        for t in ("double", "float", "long"):
+            for where in ("first", "middle", "last"):
+                yield {"kind": "bigfile", "type": t, "where": where}
         # time zones: bounds of date/time/timestamp columns are encoded at write and decoded at read time - in a
         # non-UTC zone, across a DST gap, and with the table written under one zone and read under another
         zones = [("JST-9", None), ("EST5EDT,M3.2.0,M11.1.0", None), ("UTC0", "JST-9"), ("PST8PDT,M3.2.0,M11.1.0", "NPT-5:45")]
@@ -100,10 +104,55 @@ class C13(Check):
 
     # ------------------------------------------------------------------
     def run_case(self, case: Any, res: CaseResult, tier: str) -> None:
-        if case["kind"] == "decide":
+        if case["kind"] == "bigfile":
+            self._bigfile(case, res)
+        elif case["kind"] == "decide":
             self._decide(case, res)
         else:
             self._e2e(case, res, tier)
+
+    def _bigfile(self, case: Any, res: CaseResult) -> None:
+        import datashard as ds
+        import datashard.filters as F
+
+        t_name = case["type"]
+        fields = [{"id": 1, "name": "rid", "type": "long", "required": True},
+                  {"id": 7, "name": "x", "type": t_name, "required": False}]
+        n = 3500
+        special = [NAN, None, float("inf")] if t_name != "long" else [None, 2 ** 53 + 1, -7]
+        common = 5.0 if t_name != "long" else 5
+        lo = {"first": 10, "middle": 1700, "last": 3400}[case["where"]]
+        recs = []
+        for i in range(n):
+            v = special[(i - lo) % len(special)] if lo <= i < lo + 6 else common
+            recs.append({"rid": i, "x": v})
+        with Scratch("c13b") as d:
+            root = str(d / "t")
+            t = ds.create_table(root, schema=tables.schema_of(fields))
+            t.append_records(recs)
+            t.append_records([{"rid": n + 1, "x": common}])
+            filters = [{"x": ("!=", common)}, {"x": (">", common)}, {"x": ("<", common)}, {"x": ("in", [s_ for s_ in special if s_ is not None])},
+                       {"x": ("not_in", [common])}, {"x": ("is_null", True)}, {"x": ("==", common)}, {"x": ("between", (common, common))}]
+            orig = F.prune_files_by_bounds
+            for flt in filters:
+                out = {}
+                for mode in ("pruned", "unpruned"):
+                    F.prune_files_by_bounds = orig if mode == "pruned" else (lambda files, e, s_: files)
+                    try:
+                        try:
+                            out[mode] = ("ok", sorted(r["rid"] for r in t.scan(filter=flt)))
+                        except Exception as e:  # noqa
+                            out[mode] = ("raise", type(e).__name__)
+                    finally:
+                        F.prune_files_by_bounds = orig
+                res.evals += 1
+                res.count("bigfile_scans", 2)
+                res.key(["bigfile", t_name, case["where"], repr(flt["x"][0])])
+                if out["unpruned"][0] == "ok" and out["pruned"] != out["unpruned"]:
+                    res.violation(f"e2e-differs:bigfile:{flt['x'][0]}:{t_name}",
+                                  f"{n}-row file with {special} only at rows {lo}..{lo + 5}: filter {flt!r} gives "
+                                  f"{len(out['pruned'][1]) if out['pruned'][0] == 'ok' else out['pruned']} rows pruned, "
+                                  f"{len(out['unpruned'][1])} unpruned", {"type": t_name, "where": case["where"], "filter": repr(flt)})
 
     def _decide(self, case: Any, res: CaseResult) -> None:
         import pyarrow.parquet as pq
